@@ -17,6 +17,7 @@ RULE = ('content: catalogue + seeded base content models (nested sequence / choi
         'looser} over boundary values; redefinition: the same (base, candidate) pairs as a redefined named group, alone and below a '
         'second redefinition by extension, compared with the original group and with the verdict of the type route; attributes: use / fixed / type / wildcard pairs x attribute-set probes; XSD 1.0 and 1.1; a '
         'case = (base, candidate); non-trivial = accepted candidates that change the base')
+RULE += (' ' + "Bases that are deterministic only under the XSD 1.1 reading (an element beside a wildcard that admits it) are judged with XMLSchema11; besides single edits there is the two-step edit 'one branch of a choice with another occurrence range'. A base that costs more than 8 s (25 s thorough) is cut short (coverage, not verdict).")
 ASSUMPTIONS = [
     'the claim is one-directional: accepted => included; refused-but-included candidates are tallied as over_strict, not violations',
     'a counter-example counts only when the library itself accepts the witness for the derived type and rejects it for the base type',
